@@ -473,7 +473,10 @@ def routes(v, perm_limit=6, deep=True):
             if all_paren(v) and not ident_inside and not abs_inside:
                 out.append(('freeze-self', '(freeze %s)' % plain))
             out.append(('setmap', '(tuple/setmap (tuple%s) 7 9)' % body))
+            out.append(('quasi', '~(%s)' % ' '.join(',' + e for e in es)))
         else:
+            # built by the bracket-tuple instruction at run time (the literal routes are built by the parser)
+            out.append(('quasi', '~[%s]' % ' '.join(',' + e for e in es)))
             out.append(('splice', '(tuple/brackets ;(array%s))' % body))
             out.append(('apply', '(apply tuple/brackets (array%s))' % body))
             out.append(('setmap', '(tuple/setmap (tuple/brackets%s) 7 9)' % body))
